@@ -38,6 +38,22 @@ impl Interpreter {
         })
     }
 
+    /// True when the element at `index` was spliced in from a branch of a conditional: it lies inside the written span of
+    /// an earlier conditional block
+    fn is_inside_conditional(&self, index: usize) -> bool {
+        let position = self.script_position(index);
+        self.script_bits[..index].iter().enumerate().any(|(i, bit)| {
+            let start = self.script_position(i);
+            matches!(bit, ScriptBit::If { .. }) && start < position && position < start + Interpreter::written_len(std::slice::from_ref(bit))
+        })
+    }
+
+    /// True when the elements cannot be the rest of a balanced script: a conditional opcode on its own among them, or a
+    /// conditional with a second OP_ELSE below
+    fn is_unbalanced(bits: &[ScriptBit]) -> bool {
+        bits.iter().any(|bit| matches!(bit, ScriptBit::OpCode(OpCodes::OP_IF | OpCodes::OP_NOTIF | OpCodes::OP_ELSE | OpCodes::OP_ENDIF))) || Interpreter::has_repeated_else(bits)
+    }
+
     /// Where execution continues after an OP_RETURN. The elements of an input are its unlocking script followed by its
     /// locking script, which are two scripts: an OP_RETURN in the unlocking script ends that one only, and the locking
     /// script still runs on the stack it left. Anywhere else it ends everything.
@@ -60,8 +76,15 @@ impl Interpreter {
                 Ok(mut next_state) => {
                     next_state.executed_opcodes.push(*o);
                     if *o == OpCodes::OP_RETURN {
+                        let end = self.index_ending_the_script();
+                        // An OP_RETURN inside a conditional stops execution, but the conditionals that follow still have to
+                        // balance (at the top level nothing after it matters)
+                        if self.is_inside_conditional(self.script_index) && Interpreter::is_unbalanced(&self.script_bits[self.script_index + 1..end]) {
+                            self.state.executed_opcodes.push(*o);
+                            return Err(InterpreterError::InvalidStackOperation("unbalanced conditional"));
+                        }
                         // Nothing after an executed OP_RETURN is run (the step counter moves on by one after this)
-                        self.script_index = self.index_ending_the_script() - 1;
+                        self.script_index = end - 1;
                     }
                     next_state
                 }
